@@ -63,6 +63,7 @@ def job_cell(job):
     native = OV.Native(extra['native'])
     rnd = random.Random(seed * 977 + v * 131 + l * 17 + m)
     dc = iso.data_codewords(v + 1, level)
+    pending_inc = []
     for n in lengths:
         T.reset()
         xs = [T.var('c%d' % i, 8) for i in range(n)]
@@ -89,7 +90,8 @@ def job_cell(job):
                     break
             res['validation']['cases'] += 60
             if bad is None:
-                raise Inconclusive('unsupported construct in V%02d-%s %s n=%d (%s); 60 native payloads agree with the oracle' % (v + 1, level, mode, n, e))
+                pending_inc.append('unsupported construct in V%02d-%s %s n=%d (%s); 60 native payloads agree with the oracle' % (v + 1, level, mode, n, e))
+                continue
             res['failures'].append({'key': 'C06/bitstream', 'confirmed': True,
                                     'what': '%s for %r (%s, V%02d-%s) [cell not executable symbolically: %s; found by native differential]' % (
                                         bad[1], bytes(bad[0]), mode, v + 1, level, str(e)[:60]),
@@ -175,6 +177,8 @@ def job_cell(job):
         for k, val in st['lib'].items():
             res['lib'][k] = res['lib'].get(k, 0) + val
     native.close()
+    if pending_inc and not res['failures']:
+        raise Inconclusive(pending_inc[0])
     return res
 
 
